@@ -776,6 +776,7 @@ class _ActionSubCommands(_SubParsersAction):
         defaults: bool,
         prefix: str = "",
         fail_no_subcommand: bool = True,
+        environ=None,
     ) -> None:
         """Takes care of parsing subcommand values."""
 
@@ -791,7 +792,7 @@ class _ActionSubCommands(_SubParsersAction):
             key = prefix + subcommand
             with parent_parsers_context(key, parser):
                 if env:
-                    subnamespace = subparser.parse_env(defaults=defaults, _skip_validation=True)
+                    subnamespace = subparser.parse_env(env=environ, defaults=defaults, _skip_validation=True)
                 elif defaults:
                     subnamespace = subparser.get_defaults(skip_validation=True)
 
@@ -802,5 +803,5 @@ class _ActionSubCommands(_SubParsersAction):
             # Handle inner subcommands
             if subparser._subparsers is not None:
                 _ActionSubCommands.handle_subcommands(
-                    subparser, cfg, env, defaults, key + ".", fail_no_subcommand=fail_no_subcommand
+                    subparser, cfg, env, defaults, key + ".", fail_no_subcommand=fail_no_subcommand, environ=environ
                 )
